@@ -1,7 +1,7 @@
 """C14 -- a Thompson binarizer is applied to every reward exactly once (replica fed pre-converted rewards)."""
 import numpy as np
 
-from .. import gen
+from .. import gen, kernel
 from ..binarizers import BINARIZERS
 from ..oracles import compare_results
 from ..world import Session, sync_streams
@@ -48,6 +48,14 @@ def generate(rnd, tier, index=0):
             if op["op"] in ("fit", "partial_fit"):
                 for r in op["rows"]:
                     r[1] = r[1] + rnd.choice([0.0, 0.25, 0.5])
+    if rnd.random() < 0.3:
+        # both bandits with n_jobs > 1; the one WITH the binarizer trains under seeded worker schedules (the binarizer is
+        # called from the workers), queries run under the canonical schedule on both sides
+        cfg["n_jobs"] = rnd.choice([2, 3, -1])
+        cfg["backend"] = rnd.choice([None, "threading"])
+        for o in ops:
+            if o["op"] in ("fit", "partial_fit"):
+                o["sched"] = kernel.Sched.draw(rnd)
     return {"cfg": cfg, "regime": regime, "ops": ops}
 
 
@@ -84,7 +92,7 @@ def execute(case, ctx):
                 ctx.violate("generator-aliasing-differs", step, None)
                 return
         R0 = R.clone() if (kind in ("predict", "expect") and cfg.get("np") and cfg["np"][0] == "TreeBandit") else None
-        rp = P.apply(op)
+        rp = P.apply(op, sched=op.get("sched"))
         rr = R.apply(op_r)
         if rp[0] == "ok" and kind in ("fit", "partial_fit"):
             ctx.fired("ops.train")
